@@ -94,6 +94,15 @@ def _c09(payload):
                 viol.append(V("C09:early_summary", "seasonal summary returned before termination after %d call(s)" % calls, partition=ks))
         if not m._clock_struct.model_is_finished:
             m.run_model(till_termination=True, initialize_model=False)
+        # calls AFTER the end was reached: their step counts overshoot the end and stop there (no exception, tables unchanged)
+        for k in (1, 9):
+            try:
+                r = m.run_model(num_steps=k, initialize_model=False)
+                if r is not True or not m.get_additional_information()["has_model_finished"]:
+                    viol.append(V("C09:after_termination", "run_model(num_steps=%d, initialize_model=False) on the finished model returned %r / reports unfinished" % (k, r), partition=ks, between=busy))
+            except Exception as e:
+                viol.append(V("C09:after_termination", "run_model(num_steps=%d, initialize_model=False) on a model that an earlier call ran to the end raised %s: %s" % (k, type(e).__name__, str(e)[:100]), partition=ks, between=busy))
+                break
         t = tables_of(m)
         for d in diff_tables(t0, t, "stepwise vs uninterrupted"):
             viol.append(V("C09:tables" + (":between_calls" if busy else ""), d + " for partition %r%s" % (ks[:12], " with another model built from the same input objects between the calls" if busy else ""), partition=ks, between=busy))
